@@ -13,6 +13,7 @@ From IE Require Import Lib.Tbl Lib.C05Lib Lib.C02Lib Gen.Codepage Gen.Formats Ge
 From IE Require Model.Sauce Proofs.SauceProofs Props.C11 Lib.C17Lib Model.Font Model.Tdf Props.C17 Model.PaletteFiles.
 From IE Require Import Model.C02Text Proofs.C02TextProofs.
 From IE Require Import Gen.C02Pal Model.C02Pal Proofs.C02PalProofs.
+From IE Require Proofs.FontProofs.
 From IE Require Model.TermCore Model.FileCore Gen.FileAnsiTok Gen.FileEmu Gen.FilePetscii Proofs.FileInv Gen.FileAnsiSafeW Gen.FileEmuSafeW Gen.FileMacroFuel Model.FileLoad Proofs.FileLoadProofs.
 Import ListNotations.
 
@@ -181,35 +182,56 @@ Theorem file_petscii_stream_total : forall cs m, FileInv.W (FileEmu.mt m) ->
   exists m', FilePetscii.run_petscii m cs = FileEmu.RunOk m' /\ FileInv.W (FileEmu.mt m').
 Proof. exact FileLoadProofs.run_petscii_np. Qed.
 
-(* the sixel epilogue of parse_with_parser (update_sixel_threads, one Image layer per sixel): no panic site is reachable
-   when there is no sixel, or font 0 is at least 1 x 1 and every sixel's pixel rectangle lies inside i32 (SixelOk) *)
-Theorem sixel_epilogue_total : forall fw fh done, FileLoadProofs.SixelOk fw fh done ->
+(* the sixel epilogue of parse_with_parser (update_sixel_threads, one Image layer per sixel): no panic site is reachable when font 0
+   has a size BitFont::from_bytes can return since fix fB (FontDims: 1..=MAX_FONT_WIDTH x 1..=MAX_FONT_HEIGHT = 8 x 32, the constants read
+   from src/fonts.rs) and every sixel has a non-negative position / pixel size with (x + 1) * 8 + width <= i32::MAX and
+   (y + 1) * 32 + height <= i32::MAX (SixelBounded - about the sixel alone).
+   Before the fix: `SixelOk fw fh done` = no sixel, or 1 <= fw, 1 <= fh and every pixel rectangle, computed WITH that font, inside i32. *)
+Theorem sixel_epilogue_total : forall fw fh done, FileLoadProofs.FontDims fw fh -> Forall FileLoadProofs.SixelBounded done ->
   exists layers, FileLoad.sixel_epilogue fw fh done = TermCore.ROk layers.
-Proof. exact FileLoadProofs.sixel_epilogue_ok. Qed.
+Proof. exact FileLoadProofs.sixel_epilogue_bounded. Qed.
+(* FontDims is not a hypothesis about the file: it holds for the size of every font from_bytes returns (C17: loaded_font_dims) *)
+Theorem loaded_font_has_dims : forall fw fh, FileLoadProofs.LoadedFont fw fh -> FileLoadProofs.FontDims fw fh.
+Proof. exact FileLoadProofs.loaded_font_dims. Qed.
 
 (* ALL eight text loaders (ans/ice/diz/unknown, avt, pcb, asc, msg, an1-an9, seq, ata), every SAUCE record, every character
    list: a buffer or an error value; never a panic; no exception (the type FileLoad.tout lost its fourth constructor TOverflow) *)
-Theorem text_load_total : forall f s fw fh done serr cs, FileLoadProofs.fsauce_nonneg s -> FileLoadProofs.SixelOk fw fh done ->
+Theorem text_load_total : forall f s fw fh done serr cs, FileLoadProofs.fsauce_nonneg s ->
+  FileLoadProofs.FontDims fw fh -> Forall FileLoadProofs.SixelBounded done ->
   match FileLoad.text_load f s fw fh done serr cs with
   | FileLoad.TOk _ _ | FileLoad.TErr => True
   | FileLoad.TPanic _ => False
   end.
-Proof. exact FileLoadProofs.text_load_total_proof. Qed.
-Theorem text_load_returns : forall f s fw fh done serr cs, FileLoadProofs.fsauce_nonneg s -> FileLoadProofs.SixelOk fw fh done ->
+Proof. exact FileLoadProofs.text_load_total_bounded. Qed.
+(* the same with font 0 in the statement: whatever byte string `data` the font was loaded from (a built-in file, the payload of a
+   `CTerm:Font:0:` string in this very file, ...) *)
+Theorem text_load_total_loaded_font : forall f s data font0 done serr cs, FileLoadProofs.fsauce_nonneg s ->
+  Font.from_bytes data = C17Lib.Ok font0 -> Forall FileLoadProofs.SixelBounded done ->
+  match FileLoad.text_load f s (Font.f_w font0) (Font.f_h font0) done serr cs with
+  | FileLoad.TOk _ _ | FileLoad.TErr => True
+  | FileLoad.TPanic _ => False
+  end.
+Proof. exact FileLoadProofs.text_load_total_loaded_font. Qed.
+Theorem text_load_returns : forall f s fw fh done serr cs, FileLoadProofs.fsauce_nonneg s ->
+  FileLoadProofs.FontDims fw fh -> Forall FileLoadProofs.SixelBounded done ->
   (exists t l, FileLoad.text_load f s fw fh done serr cs = FileLoad.TOk t l) \/ FileLoad.text_load f s fw fh done serr cs = FileLoad.TErr.
-Proof. exact FileLoadProofs.text_load_returns. Qed.
+Proof. exact FileLoadProofs.text_load_returns_bounded. Qed.
 (* (kept) ASCII, PETSCII (seq) and ATASCII files *)
 Theorem text_load_no_ansi_total : forall f s fw fh done serr cs,
-  (f = FileLoad.TAsc \/ f = FileLoad.TSeq \/ f = FileLoad.TAta) -> FileLoadProofs.fsauce_nonneg s -> FileLoadProofs.SixelOk fw fh done ->
+  (f = FileLoad.TAsc \/ f = FileLoad.TSeq \/ f = FileLoad.TAta) -> FileLoadProofs.fsauce_nonneg s ->
+  FileLoadProofs.FontDims fw fh -> Forall FileLoadProofs.SixelBounded done ->
   (exists t l, FileLoad.text_load f s fw fh done serr cs = FileLoad.TOk t l) \/ FileLoad.text_load f s fw fh done serr cs = FileLoad.TErr.
-Proof. exact FileLoadProofs.text_load_standalone_total. Qed.
+Proof. exact FileLoadProofs.text_load_standalone_bounded. Qed.
 
 (* Known 2 (= C01-stackoverflow:invoke_macro_by_id reached through a file: the content stores a macro that invokes itself) is REPAIRED
    (fix 2513579, MAX_MACRO_NESTING): fixed_2_witness - the file loads; known_2_before_fix_refuted - the old behaviour as a statement about the
    same model: in the state that file reaches, the invocation nests to EVERY limit (without one: until the stack is gone).
-   Known 3 (C02-sixel-font0, new): a sixel next to a font 0 that a `CTerm:Font:0:` DCS string replaced by one of width / height 0,
-   >= 2^30 or >= 2^31 - the epilogue divides by the font size, multiplies the cursor by it, makes a layer of that many cells. *)
-Definition KnownC02_3 (fw fh : Z) (done : list FileLoad.sixel) : Prop := ~ FileLoadProofs.SixelOk fw fh done.
+   Known 3 (C02-sixel-font0: a sixel next to a font 0 that a `CTerm:Font:0:` DCS string replaced by one of width / height 0, >= 2^30 or
+   >= 2^31 - the epilogue divides by the font size, multiplies the cursor by it, makes a layer of that many cells) is REPAIRED (fix fB:
+   load_psf2 / load_psf1 / load_plain_font refuse a glyph size outside 1..=8 x 1..=32): known_3_before_fix_refuted - what the OLD loader
+   (FontProofs.load_psf2_before_fix) made of the four witness headers and what the (unchanged) epilogue does with such a font;
+   fixed_3_witness - from_bytes refuses them, the font string is an error value of the parser and the witness file loads.
+   The predicate KnownC02_3 (= ~ SixelOk) is gone. *)
 Theorem fixed_2_witness :
   match FileLoad.text_load FileLoad.TAns None 8 16 [] false FileLoadProofs.macro_bomb with
   | FileLoad.TOk t [] => (TermCore.bh t, TermCore.cx t, TermCore.cy t) = (0, 0, 0)%Z | _ => False end.
@@ -220,22 +242,36 @@ Proof. exact FileMacroFuel.macro_self_reaches_every_limit. Qed.
 Theorem file_macro_limit_only_cuts : forall k fuel m ch,
   (forall d, FileAnsiTok.astep fuel m ch <> FileAnsiTok.ODeep d) -> FileAnsiTok.astep (fuel + k) m ch = FileAnsiTok.astep fuel m ch.
 Proof. exact FileMacroFuel.astep_fuel_irrelevant. Qed.
-Theorem known_3_witness :
-  FileLoad.sixel_epilogue 0 16 [FileLoad.mkSx 0 0 4 6] = TermCore.RPanic FileLoad.SITE_SIXEL_DIV /\
-  FileLoad.sixel_epilogue 1073741824 16 [FileLoad.mkSx 2 0 4 6] = TermCore.RPanic FileLoad.SITE_SIXEL_MUL /\
-  FileLoad.sixel_epilogue (-1) (-1) [FileLoad.mkSx 0 0 4 6] = TermCore.RPanic FileLoad.SITE_LAYER_NEW.
-Proof.
-  exact (conj FileLoadProofs.sixel_div_zero_witness (conj FileLoadProofs.sixel_mul_overflow_witness FileLoadProofs.sixel_negative_layer_witness)).
-Qed.
+Theorem known_3_before_fix_refuted :
+  (exists f, FontProofs.load_psf2_before_fix (FontProofs.psf2_header 16 0) = C17Lib.Ok f /\
+             FileLoad.sixel_epilogue (Font.f_w f) (Font.f_h f) [FileLoad.mkSx 0 0 4 6] = TermCore.RPanic FileLoad.SITE_SIXEL_DIV) /\
+  (exists f, FontProofs.load_psf2_before_fix (FontProofs.psf2_header 0 8) = C17Lib.Ok f /\
+             FileLoad.sixel_epilogue (Font.f_w f) (Font.f_h f) [FileLoad.mkSx 0 0 4 6] = TermCore.RPanic FileLoad.SITE_SIXEL_DIV) /\
+  (exists f, FontProofs.load_psf2_before_fix (FontProofs.psf2_header 16 1073741824) = C17Lib.Ok f /\
+             FileLoad.sixel_epilogue (Font.f_w f) (Font.f_h f) [FileLoad.mkSx 2 0 4 6] = TermCore.RPanic FileLoad.SITE_SIXEL_MUL) /\
+  (exists f, FontProofs.load_psf2_before_fix (FontProofs.psf2_header 4294967295 4294967295) = C17Lib.Ok f /\
+             FileLoad.sixel_epilogue (Font.f_w f) (Font.f_h f) [FileLoad.mkSx 0 0 4 6] = TermCore.RPanic FileLoad.SITE_LAYER_NEW).
+Proof. exact FileLoadProofs.known_3_before_fix. Qed.
+Theorem fixed_3_witness :
+  Font.from_bytes (FontProofs.psf2_header 16 0) = C17Lib.Err Font.E_SIZE /\ Font.from_bytes (FontProofs.psf2_header 0 8) = C17Lib.Err Font.E_SIZE /\
+  Font.from_bytes (FontProofs.psf2_header 16 1073741824) = C17Lib.Err Font.E_SIZE /\
+  Font.from_bytes (FontProofs.psf2_header 4294967295 4294967295) = C17Lib.Err Font.E_SIZE /\
+  Font.from_bytes [54; 4; 0; 0]%N = C17Lib.Err Font.E_SIZE /\
+  match FileLoad.text_load FileLoad.TAns None 8 16 [FileLoad.mkSx 0 0 4 6] false FileLoadProofs.font0_w0_file with
+  | FileLoad.TOk t [(1, 1)%Z] => (TermCore.bh t, TermCore.cx t, TermCore.cy t) = (1, 0, 0)%Z | _ => False end.
+Proof. exact FileLoadProofs.known_3_after_fix. Qed.
 
 (* the hypothesis of from_bytes_total, for the model of the text loaders: for every decoder `conv` of the content bytes and
-   every sane sixel oracle, a text loader never "panics" (before the nesting limit: "... is in the macro class") *)
+   every oracle of the epilogue that reports, as font 0, the size of a font from_bytes returned, and sixels inside i32 (SaneOracle =
+   LoadedFont fw fh /\ Forall SixelBounded done; before fix fB: SixelOk, with its condition `font 0 at least 1 x 1`),
+   a text loader never "panics" (before the nesting limit: "... is in the macro class") *)
 Theorem text_load_hypothesis_discharged : forall conv sixels f content s,
   SaneOracle sixels -> sauce_nonneg s -> text_load_model conv sixels f content s <> OPanic.
 Proof. exact text_load_model_total. Qed.
 
 (* Buffer::from_bytes WITHOUT a hypothesis on the text loaders and WITHOUT a known class of contents: for every date parser, decoder,
-   container oracle, payload decoder, every extension and every byte string (with a sane sixel oracle = outside Known 3).
+   container oracle, payload decoder, every extension and every byte string.  SaneOracle no longer excludes a class of FILES (the former
+   Known 3): it says that the font table holds loaded fonts and that the decoded pictures fit into i32.
    (from_bytes_crash_is_macro, "a crash of from_bytes IS a macro crash of a text loader", would now have a false premise: removed.) *)
 Theorem from_bytes_total_unconditional :
   forall (dp : list N -> option Sauce.ymd) (conv : list N -> list Z) (sixels : sixel_oracle)
